@@ -614,6 +614,7 @@ func init() {
 	for _, n := range []string{
 		"log/slog.Info", "log/slog.Warn", "log/slog.Error", "log/slog.Debug",
 		"(*log/slog.Logger).Info", "(*log/slog.Logger).Warn", "(*log/slog.Logger).Error", "(*log/slog.Logger).Debug",
+		"(*log/slog.Logger).Enabled", "log/slog.Default", "log/slog.InfoContext", "log/slog.WarnContext", "log/slog.ErrorContext", "log/slog.DebugContext",
 		"log.Printf", "log.Println", "log.Print", "fmt.Printf", "fmt.Println", "fmt.Print",
 		"fmt.Fprintf", "fmt.Fprintln", "fmt.Fprint",
 		"(*log.Logger).Printf", "(*log.Logger).Println",
@@ -677,7 +678,7 @@ func init() {
 	// ---- sync -----------------------------------------------------------------------------------
 	lock := func(write bool) Intrinsic {
 		return func(ex *Exec, g *G, fn *ssa.Function, a []Value) (Value, bool) {
-			if !ex.cfg.NoMutexPreempt && ex.preemptPoint(g) {
+			if !ex.cfg.NoMutexPreempt && ex.mutexFree(a[0].(Ptr), write) && ex.preemptAtLock(g) {
 				g.top.ip--
 				return nil, true
 			}
@@ -732,7 +733,7 @@ func init() {
 			c := ex.wgs[p]
 			return c == nil || (c.IsConst() && c.SInt() <= 0)
 		}
-		if ex.preemptPoint(g) {
+		if zero() && ex.preemptPoint(g) {
 			g.top.ip--
 			return nil, true
 		}
@@ -745,12 +746,25 @@ func init() {
 	})
 	reg("(*sync.Once).Do", func(ex *Exec, g *G, fn *ssa.Function, a []Value) (Value, bool) {
 		p := a[0].(Ptr)
-		if ex.onces[p] {
+		switch ex.onces[p] {
+		case 2:
+			return nil, true
+		case 1:
+			// another caller is inside f: Do returns only after that call has completed
+			ex.block(g, "once", func() bool { return ex.onces[p] == 2 }, nil)
+			g.top.ip--
 			return nil, true
 		}
-		ex.onces[p] = true
+		ex.onces[p] = 1
 		f := a[1].(FuncV)
+		caller := g.top
 		ex.invoke(g, f, nil, nil)
+		if g.top != caller && g.top != nil {
+			g.top.onReturn = func(Value) { ex.onces[p] = 2 }
+			g.top.onUnwind = func() { ex.onces[p] = 2 }
+		} else {
+			ex.onces[p] = 2
+		}
 		return nil, true
 	})
 	reg("(*sync.Pool).Get", func(ex *Exec, g *G, fn *ssa.Function, a []Value) (Value, bool) {
